@@ -201,7 +201,12 @@ def run_twin(ns, fam, ops_in=None, seed=0, profile="basic", n_steps=30):
                 tb = None if path is None else b_target(ri, path, root._to_base())
                 if tb is not None:
                     try:
-                        exp = apply_call(tb, name, args)
+                        if name == "dpopitem" and real_err is None:
+                            # which binding popitem takes depends on the (unspecified) key order:
+                            # remove the same key from the twin and compare the values
+                            exp = (real[0], tb.pop(real[0], MISSING))
+                        else:
+                            exp = apply_call(tb, name, args)
                         exp_err = None
                     except Exception as e:  # noqa: BLE001
                         exp, exp_err = None, e
